@@ -83,6 +83,26 @@ def spawn_workers(prop, tier, seed, nw, timeout, replay=None, pyflags=(), env_ex
         procs.append((p, out, errf))
     results, problems = [], []
     deadline = time.time() + timeout
+    if os.environ.get('VERIF_STOP_ON_FIRST') == '1':
+        # mutation-analysis mode (tools/*): one violation decides - as soon as one worker has written a result
+        # that holds a violation, the others are stopped (their shares would only add more of the same)
+        stopped = set()
+        while time.time() < deadline and any(p.poll() is None for p, _o, _e in procs):
+            hit = False
+            for p, out, _e in procs:
+                if p.poll() is not None and os.path.exists(out):
+                    try:
+                        hit = hit or bool(json.load(open(out)).get('violations'))
+                    except ValueError:
+                        pass
+            if hit:
+                for k_, (p, _o, _e) in enumerate(procs):
+                    if p.poll() is None:
+                        p.kill()
+                        stopped.add(k_)
+                break
+            time.sleep(0.3)
+        procs = [x for k_, x in enumerate(procs) if k_ not in stopped]
     for wi, (p, out, errf) in enumerate(procs):
         try:
             p.wait(timeout=max(1, deadline - time.time()))
